@@ -349,20 +349,20 @@ def operator_table(ctx, fn, opsmod='tracklib.core.operators'):
     tables become dicts of those records"""
     ref = orders.PyStub()
     c = ctx.prog.cls(opsmod + '.Operator')
+    # the class body is interpreted statement by statement (constants built by calls, dict displays, ** splices, comprehensions ...)
+    env = {}
     for st in c.node.body:
-        if isinstance(st, ast.Assign) and len(st.targets) == 1 and isinstance(st.targets[0], ast.Name):
-            nm = st.targets[0].id
-            v = st.value
-            if isinstance(v, ast.Call) and isinstance(v.func, ast.Name) and not v.args and (opsmod + '.' + v.func.id) in ctx.prog.classes:
-                q = opsmod + '.' + v.func.id
-                o = instance(ctx, q, {}, fn, isa=all_bases(ctx, q))
-                setattr(ref, nm, o)
-            elif isinstance(v, ast.Dict):
-                d = {}
-                for k_, v_ in zip(v.keys, v.values):
-                    if isinstance(k_, ast.Constant) and isinstance(v_, ast.Name) and hasattr(ref, v_.id):
-                        d[k_.value] = getattr(ref, v_.id)
-                setattr(ref, nm, d)
+        if isinstance(st, (ast.Assign, ast.AnnAssign, ast.AugAssign, ast.For, ast.If)):
+            try:
+                orders.run_block([st], env, fn)
+            except orders.Unsupported as ex:
+                raise shape_error('Operator namespace not interpretable: %s' % ex, '%s:%d' % (ctx.prog.cls(opsmod + '.Operator').module.path if hasattr(ctx.prog.cls(opsmod + '.Operator'), 'module') else opsmod, st.lineno))
+    for nm, v in env.items():
+        if not nm.startswith('__') or not nm.endswith('__'):
+            try:
+                setattr(ref, nm, v)
+            except Exception:
+                pass
     fn['Operator'] = ref
     fn['__globals__']['Operator'] = ref
     return ref
